@@ -5,3 +5,5 @@ import OxyModel.Props.C16
 #print axioms C16.C16_relay_identity
 #print axioms C16.C16_listener_paired
 #print axioms C16.C16_listener_sequence
+#print axioms C16.C16_abort_after_head
+#print axioms C16.C16_complete_transfer
